@@ -337,17 +337,17 @@ example : toFileMap .analyze id 24 (.flt 24) ⟨.flt 24, none, none⟩ (some (.i
 
 /-- SAVE HISTORIES: in any sequence of saves of one image (each with or without a `dtype=` override, failing or not)
     every save gives exactly what it would give as the first save, and the header ends as it began. -/
-theorem save_history_independent (c : Cls) (rnd : Rat → Rat) (p32 : Nat) (i : InT) (data : List Val) (h hf : Hdr)
-    (args : List (Option DT)) (rs : List (Except Err (Rat × Rat × List Int)))
-    (e : saveSeq c rnd p32 i data h args = some (rs, hf)) :
-    hf = h ∧ List.Forall₂ (fun a r => toFileMap c rnd p32 i h a data = some (r, h)) args rs :=
-  saveSeq_spec c rnd p32 i data h args rs hf e
+theorem save_history_independent (c : Cls) (rnd : Rat → Rat) (p32 : Nat) (i : InT) (data : List Val) (h : Hdr)
+    (args : List (Option DT)) :
+    (saveSeq c rnd p32 i data h args).2 = h ∧
+    List.Forall₂ (fun a r => (toFileMap c rnd p32 i h a data).map Prod.fst = r ∧
+                             ∀ x, toFileMap c rnd p32 i h a data = some x → x.2 = h)
+      args (saveSeq c rnd p32 i data h args).1 :=
+  saveSeq_spec c rnd p32 i data h args
 
 example : (saveSeq .spm id 24 (.flt 24) [.fin 0, .fin 510] ⟨.flt 24, none, none⟩
-      [some (.int ⟨0, 255⟩), some (.int ⟨-32768, 32767⟩), none]).isNone = true ∧
-    (saveSeq .spm id 24 (.flt 24) [.fin 0, .fin 510] ⟨.int ⟨0, 65535⟩, none, none⟩ [some (.int ⟨0, 255⟩), none]).map
-        (fun p => (p.1.map Except.toOption, p.2))
-      = some ([some (2, 0, [0, 255]), some (1, 0, [0, 510])], ⟨.int ⟨0, 65535⟩, none, none⟩) := by decide +kernel
+      [some (.int ⟨0, 255⟩), none, some (.int ⟨0, 65535⟩)]).1.map (fun r => r.map Except.toOption)
+      = [some (some (2, 0, [0, 255])), none, some (some (2/257, 0, [0, 65535]))] := by decide +kernel
 
 /-- NO WRAP through `to_file_map`, every path — calculated scaling and caller-fixed scaling (slope / intercept preset
     in the header: the array is written as it is, clipped to the shared range) alike. -/
